@@ -152,6 +152,8 @@ def run(pid, tier, seed):
     if bad or res.struct:
         names = [o.name for o in bad] + ["STRUCT:" + s.ident for s in res.struct]
         out = driver.harness_json("mutators.py", "diffsearch", {"nodes": 3, "maxlen": 2, "max_cases": 300000}, timeout=1500)
+        if not out.get("found"):
+            out = driver.harness_json("mutators.py", "diffsearch", {"nodes": 3, "maxlen": 2, "max_cases": 300000, "eq": True}, timeout=1500)
         payload = {"property": pid, "failed_obligations": names[:40], "notes": [o.note for o in bad[:10]],
                    "solver_output": [{"obligation": o.name, "attempts": o.all_results} for o in bad[:10]]}
         if out.get("found"):
